@@ -9,8 +9,8 @@ import json, os, shutil, subprocess
 import vf
 
 ALLK = ["tcp-ip", "tcp-domain", "forward", "udp", "icmp", "shell", "shell-tty", "file-upload", "file-download"]
-INVS = "TypeOK KeysAgree DistinctInputsDistinctKeys DegenerateRefused TransitSeesOnlyCiphertext TransitNeverHoldsKey PayloadIntact"
-TRACE_INVS = "KeysAgree DistinctInputsDistinctKeys DegenerateRefused TransitSeesOnlyCiphertext TransitNeverHoldsKey PayloadIntact"
+INVS = "TypeOK KeysAgree DistinctInputsDistinctKeys DegenerateRefused NoDataBeforeKey TransitSeesOnlyCiphertext TransitNeverHoldsKey PayloadIntact"
+TRACE_INVS = "KeysAgree DistinctInputsDistinctKeys DegenerateRefused NoDataBeforeKey TransitSeesOnlyCiphertext TransitNeverHoldsKey PayloadIntact"
 # deviation -> (property it belongs to, invariant expected to catch it, cfg overrides)
 DEVS = {
     "DevSwapPubOrder":       ("C03", "KeysAgree", {}),
@@ -19,6 +19,8 @@ DEVS = {
     "DevSaltOmitsRid":       ("C03", "DistinctInputsDistinctKeys", {"pool": ["a"], "rids": [1, 2]}),
     "DevPlaintextFallback":  ("C04", "TransitSeesOnlyCiphertext", {"adv": True, "classes": ["zero"], "k1": ["udp"], "k2": ["udp"], "maxdata": 1}),
     "DevTransitDerives":     ("C04", "TransitNeverHoldsKey", {}),
+    "DevDataBeforeKey":      ("C04", "NoDataBeforeKey", {"k1": ["udp"], "k2": [], "maxdata": 1, "life": True}),
+    "DevSealAfterKeyWipe":   ("C04", "TransitSeesOnlyCiphertext", {"k1": ["tcp-ip"], "k2": [], "maxdata": 1, "life": True}),
 }
 HFILES = ["common/common_test.go.tmpl", "agent/cmesh_test.go", "agent/keys_test.go"]
 
@@ -28,10 +30,11 @@ def tset(xs):
 
 
 def cfg(nt=1, k1=("tcp-ip",), k2=("tcp-ip",), rids=(1,), maxdata=0, classes=(), adv=False, pool=(), dev=(),
-        emitvec=False, invs=INVS, trace=False):
+        emitvec=False, invs=INVS, trace=False, life=False):
     c = ("CONSTANTS NT = %d\n Kinds1 = %s\n Kinds2 = %s\n RIDs = %s MaxData = %d Classes = %s Adversary = %s EphPool = %s "
-         "Dev = %s EmitVec = %s\n" % (nt, tset(k1), tset(k2), tset(rids), maxdata, tset(classes), "TRUE" if adv else "FALSE",
-                                      tset(pool), tset(dev), "TRUE" if emitvec else "FALSE"))
+         "Lifecycle = %s Dev = %s EmitVec = %s\n" % (nt, tset(k1), tset(k2), tset(rids), maxdata, tset(classes),
+                                                     "TRUE" if adv else "FALSE", tset(pool), "TRUE" if life else "FALSE",
+                                                     tset(dev), "TRUE" if emitvec else "FALSE"))
     if trace:
         c += "INIT TraceInit\nNEXT TraceNext\nCONSTRAINT HighWater\nPOSTCONDITION TraceAccepted\n"
     else:
@@ -56,6 +59,11 @@ def model(ctx, prop):
         ("adversary-nt1", dict(nt=1, k1=["tcp-ip", "udp", "shell"] if q else kinds8, k2=["udp"] if q else ["udp", "tcp-ip"],
                                rids=[1], maxdata=1, adv=True, classes=["zero", "lo8a"])),
     ]
+    if prop == "C04":
+        # life cycle: open timeout / late ACK, close racing with the exit's Read ; Seal return path
+        plan.append(("lifecycle-nt2", dict(nt=2, k1=["tcp-ip", "udp"], k2=[], rids=[1], maxdata=1, life=True)))
+        if not q:
+            plan.append(("lifecycle-2tunnels-nt1", dict(nt=1, k1=["tcp-ip"], k2=["udp"], rids=[1], maxdata=1, life=True)))
     if prop == "C03":
         # ephemeral keys drawn from a pool (not fresh): equal inputs <-> equal keys
         plan.append(("pool-nt1", dict(nt=1, k1=["tcp-ip"], k2=["tcp-ip"], rids=[1, 2], maxdata=0, pool=["a", "b"])))
@@ -145,11 +153,12 @@ def seg_kinds(seg):
     return {e["t"]: e["kind"] for e in seg if e["ev"] == "Open" and e.get("hop") == 1}
 
 
-def run_traces(ctx):
+def run_traces(ctx, extra_env=None):
     """Runs the cmesh harness once; returns dict(records, topo: {nt: {events, info}}, notes)."""
     env, note = netns_env(ctx)
     out = ctx.scratch("keytraces")
     e = dict(env)
+    e.update(extra_env or {})
     e["ZZV_OUT_DIR"] = out
     e["ZZV_ROUNDS"] = 1 if ctx.quick() else 10
     r = ctx.gotest("agent", HFILES, "^TestZZVKeysTrace$", env=e, timeout=1500)
@@ -161,7 +170,7 @@ def run_traces(ctx):
     summ = r.of("summary")
     if not summ:
         raise vf.Infra("trace harness produced no summary")
-    hard = [a for a in r.of("anomaly") if a.get("what") not in ("plaintext marker in a non-data frame",
+    hard = [a for a in r.of("anomaly") if a.get("what") not in ("plaintext marker in a non-data frame", "undecodable data frame",
                                                                   "open payload differs from the previous hop",
                                                                   "key derivation that mentions no known initiator key")]
     if hard:
@@ -257,7 +266,7 @@ def validate_all(ctx, nt, events, name, relevant, keep=None, max_iter=12):
         kind = kinds.get(ev.get("t"), "?")
         key = relevant(ev, kind, bad[:h - pos - 1] if bad else [])
         if key:
-            devs = classify(ctx, nt, bad, h - pos, "%s-%d-cls" % (name, it)) if (bad and not any(f[0] == key for f in findings)) else []
+            devs = classify(ctx, nt, bad, h - pos, "%s-%d-cls" % (name, it)) if (bad and not findings) else []
             findings.append((key,
                              "recorded execution of real agents (%d transit(s), %s tunnel) is not a behaviour of KeyAgreement.tla: "
                              "event #%d %s cannot be matched%s" % (nt, kind, h, json.dumps(ev, sort_keys=True),
@@ -282,6 +291,18 @@ def run_puppet(ctx):
     if not pv or not ps:
         raise vf.Infra("puppet harness produced no vectors:\n" + r.out[-3000:])
     return pv, ps[0], note
+
+
+def run_boundary(ctx):
+    """Boundary request identifiers (0, 1, 2^32, 2^63, 2^64-1, equal to / different from the hop's stream id) on every
+    responder path (puppet ingress -> real transit -> real exit) and on the initiator paths whose request id comes from
+    the stream manager's counter (real ingress -> real transit -> puppet exit)."""
+    env, note = netns_env(ctx)
+    r = ctx.gotest("agent", HFILES, "^TestZZVKeysBoundary$", env=env, timeout=900)
+    bv, bs = r.of("bvec"), r.of("bsummary")
+    if not bv or not bs:
+        raise vf.Infra("boundary harness produced no vectors:\n" + r.out[-3000:])
+    return bv, bs[0]
 
 
 def run_vectors(ctx, m):
